@@ -1,0 +1,271 @@
+//go:build verif
+
+// C18 contracts for package handshake (comment-only; read by /verif/vc).
+package handshake
+
+// RFC 6347 4.2.2: msg_type(1) length(3) message_seq(2) fragment_offset(3) fragment_length(3).
+
+//@ func Header.Marshal
+//@ ensures ok: old(h.Length) <= 0xFFFFFF && old(h.FragmentOffset) <= 0xFFFFFF && old(h.FragmentLength) <= 0xFFFFFF ==> result1 == nil
+//@ ensures size: result1 == nil ==> len(result0) == 12
+//@ ensures layout-type: result1 == nil ==> result0[0] == byte(h.Type)
+//@ ensures layout-length: result1 == nil ==> result0[1] == byte(h.Length >> 16) && result0[2] == byte(h.Length >> 8) && result0[3] == byte(h.Length)
+//@ ensures layout-seq: result1 == nil ==> result0[4] == byte(h.MessageSequence >> 8) && result0[5] == byte(h.MessageSequence)
+//@ ensures layout-fragoff: result1 == nil ==> result0[6] == byte(h.FragmentOffset >> 16) && result0[7] == byte(h.FragmentOffset >> 8) && result0[8] == byte(h.FragmentOffset)
+//@ ensures layout-fraglen: result1 == nil ==> result0[9] == byte(h.FragmentLength >> 16) && result0[10] == byte(h.FragmentLength >> 8) && result0[11] == byte(h.FragmentLength)
+//@ ensures frame: h.Type == old(h.Type) && h.Length == old(h.Length) && h.MessageSequence == old(h.MessageSequence)
+//@    && h.FragmentOffset == old(h.FragmentOffset) && h.FragmentLength == old(h.FragmentLength)
+//@ end
+
+//@ func Header.Unmarshal
+//@ ensures short: len(data) < 12 ==> result != nil
+//@ ensures ok: len(data) >= 12 ==> result == nil
+//@ ensures type: result == nil ==> h.Type == Type(data[0])
+//@ ensures length: result == nil ==> h.Length == uint32(data[1])<<16 | uint32(data[2])<<8 | uint32(data[3])
+//@ ensures seq: result == nil ==> h.MessageSequence == uint16(data[4])<<8 | uint16(data[5])
+//@ ensures fragoff: result == nil ==> h.FragmentOffset == uint32(data[6])<<16 | uint32(data[7])<<8 | uint32(data[8])
+//@ ensures fraglen: result == nil ==> h.FragmentLength == uint32(data[9])<<16 | uint32(data[10])<<8 | uint32(data[11])
+//@ ensures ranges: result == nil ==> h.Length <= 0xFFFFFF && h.FragmentOffset <= 0xFFFFFF && h.FragmentLength <= 0xFFFFFF
+//@ ensures short-frame: result != nil ==> h.Type == old(h.Type) && h.Length == old(h.Length) && h.MessageSequence == old(h.MessageSequence)
+//@    && h.FragmentOffset == old(h.FragmentOffset) && h.FragmentLength == old(h.FragmentLength)
+//@ ensures input-unchanged: forall(0, len(data), func(i int) bool { return data[i] == old(data[i]) })
+//@ end
+
+// RFC 5246 7.4.9: struct { opaque verify_data[verify_data_length]; } Finished — no length prefix,
+// the body is the verify data.
+
+//@ func MessageFinished.Marshal
+//@ inline
+//@ ensures ok: result1 == nil
+//@ ensures layout: bytesEq(result0, old(m.VerifyData))
+//@ ensures fresh: len(result0) > 0 ==> !sameArray(result0, m.VerifyData)
+//@ ensures frame: bytesEq(m.VerifyData, old(m.VerifyData)) && len(m.VerifyData) == old(len(m.VerifyData))
+//@ end
+
+//@ func MessageFinished.Unmarshal
+//@ inline
+//@ ensures ok: result == nil
+//@ ensures fields: bytesEq(m.VerifyData, data)
+//@ ensures declared-len: len(m.VerifyData) == len(data)
+//@ ensures fresh: len(data) > 0 ==> !sameArray(m.VerifyData, data)
+//@ ensures input-unchanged: forall(0, len(data), func(i int) bool { return data[i] == old(data[i]) })
+//@ end
+
+// RFC 5246 7.4.5: struct { } ServerHelloDone.
+
+//@ func MessageServerHelloDone.Marshal
+//@ inline
+//@ ensures ok: result1 == nil
+//@ ensures layout: len(result0) == 0
+//@ end
+
+//@ func MessageServerHelloDone.Unmarshal
+//@ inline
+//@ ensures ok: result == nil
+//@ end
+
+// RFC 8446 4.6.3: enum { update_not_requested(0), update_requested(1), (255) } request_update.
+
+//@ func MessageKeyUpdate.Marshal
+//@ inline
+//@ ensures ok: old(m.RequestUpdate) <= 1 ==> result1 == nil
+//@ ensures invalid: old(m.RequestUpdate) > 1 ==> result1 != nil
+//@ ensures size: result1 == nil ==> len(result0) == 1
+//@ ensures layout: result1 == nil ==> result0[0] == byte(m.RequestUpdate)
+//@ ensures frame: m.RequestUpdate == old(m.RequestUpdate)
+//@ end
+
+//@ func MessageKeyUpdate.Unmarshal
+//@ inline
+//@ ensures short: len(data) < 1 ==> result != nil
+//@ ensures long: len(data) > 1 ==> result != nil
+//@ ensures invalid: len(data) == 1 && data[0] > 1 ==> result != nil
+//@ ensures ok: len(data) == 1 && data[0] <= 1 ==> result == nil
+//@ ensures field: result == nil ==> m.RequestUpdate == KeyUpdateRequest(data[0])
+//@ ensures err-frame: result != nil ==> m.RequestUpdate == old(m.RequestUpdate)
+//@ end
+
+// RFC 6347 4.2.1: struct { ProtocolVersion server_version; opaque cookie<0..2^8-1>; } HelloVerifyRequest.
+
+//@ func MessageHelloVerifyRequest.Marshal
+//@ inline
+//@ ensures too-long: len(old(m.Cookie)) > 255 ==> result1 != nil
+//@ ensures ok: len(old(m.Cookie)) <= 255 ==> result1 == nil
+//@ ensures size: result1 == nil ==> len(result0) == 3 + len(m.Cookie)
+//@ ensures layout-version: result1 == nil ==> result0[0] == m.Version.Major && result0[1] == m.Version.Minor
+//@ ensures layout-cookie-len: result1 == nil ==> int(result0[2]) == len(m.Cookie)
+//@ ensures layout-cookie: result1 == nil ==> forall(0, len(m.Cookie), func(i int) bool { return result0[3+i] == m.Cookie[i] })
+//@ ensures frame: m.Version.Major == old(m.Version.Major) && m.Version.Minor == old(m.Version.Minor)
+//@    && len(m.Cookie) == old(len(m.Cookie)) && forall(0, len(m.Cookie), func(i int) bool { return m.Cookie[i] == old(m.Cookie[i]) })
+//@ end
+
+//@ func MessageHelloVerifyRequest.Unmarshal
+//@ inline
+//@ ensures short: len(data) < 3 ==> result != nil
+//@ ensures truncated: len(data) >= 3 && len(data) < 3 + int(data[2]) ==> result != nil
+//@ ensures ok: len(data) >= 3 && len(data) >= 3 + int(data[2]) ==> result == nil
+//@ ensures version: result == nil ==> m.Version.Major == data[0] && m.Version.Minor == data[1]
+//@ ensures declared-len: result == nil ==> len(m.Cookie) == int(data[2])
+//@ ensures cookie: result == nil ==> forall(0, len(m.Cookie), func(i int) bool { return m.Cookie[i] == data[3+i] })
+//@ ensures fresh: result == nil && len(m.Cookie) > 0 ==> !sameArray(m.Cookie, data)
+//@ ensures input-unchanged: forall(0, len(data), func(i int) bool { return data[i] == old(data[i]) })
+//@ end
+
+// RFC 5246 7.4.1.2: struct { uint32 gmt_unix_time; opaque random_bytes[28]; } Random.
+
+// time.Time is opaque to the engine: the time field is specified through the call events of
+// Time.Unix (encode) and time.Unix (decode).
+
+//@ func Random.MarshalFixed
+//@ inline
+//@ watch Time.Unix
+//@ ensures time-read: ncalls("Time.Unix") == 1
+//@ ensures layout-time: result[0] == byte(uint32(retInt("Time.Unix", 0)) >> 24) && result[1] == byte(uint32(retInt("Time.Unix", 0)) >> 16)
+//@    && result[2] == byte(uint32(retInt("Time.Unix", 0)) >> 8) && result[3] == byte(uint32(retInt("Time.Unix", 0)))
+//@ ensures layout-bytes: forall(0, 28, func(i int) bool { return result[4+i] == r.RandomBytes[i] })
+//@ ensures frame: forall(0, 28, func(i int) bool { return r.RandomBytes[i] == old(r.RandomBytes[i]) })
+//@ end
+
+//@ func Random.UnmarshalFixed
+//@ inline
+//@ watch time.Unix
+//@ ensures time-built: ncalls("time.Unix") == 1
+//@ ensures time: argInt("time.Unix", 0) == int(uint32(data[0])<<24 | uint32(data[1])<<16 | uint32(data[2])<<8 | uint32(data[3])) && argInt("time.Unix", 1) == 0
+//@ ensures time-stored: r.GMTUnixTime == retAs("time.Unix", 0, r.GMTUnixTime)
+//@ ensures bytes: forall(0, 28, func(i int) bool { return r.RandomBytes[i] == data[4+i] })
+//@ end
+
+// ClientKeyExchange. RFC 4279 2: opaque psk_identity<0..2^16-1>; RFC 8422 5.7:
+// struct { opaque point<1..2^8-1>; } ECPoint; RFC 5489 2 (ECDHE_PSK): psk_identity then the ECPoint.
+// KeyExchangeAlgorithm is a bit set: Psk = 2, Ecdhe = 4.
+
+//@ define CKE_HINTLEN(d) (int(d[0])<<8 | int(d[1]))
+//@ define CKE_PSK(m) (m.KeyExchangeAlgorithm & 2 != 0)
+//@ define CKE_ECDHE(m) (m.KeyExchangeAlgorithm & 4 != 0)
+
+//@ func MessageClientKeyExchange.Marshal
+//@ ensures empty: old(m.IdentityHint) == nil && old(m.PublicKey) == nil ==> err != nil
+//@ ensures key-too-long: old(m.PublicKey) != nil && len(old(m.PublicKey)) > 255 ==> err != nil
+//@ ensures hint-too-long: old(m.IdentityHint) != nil && len(old(m.IdentityHint)) > 65535 ==> err != nil
+//@ ensures ok: (old(m.IdentityHint) != nil || old(m.PublicKey) != nil) && len(old(m.PublicKey)) <= 255 && len(old(m.IdentityHint)) <= 65535 ==> err == nil
+//@ ensures size-psk: err == nil && m.IdentityHint != nil && m.PublicKey == nil ==> len(out) == 2 + len(m.IdentityHint)
+//@ ensures size-ecdhe: err == nil && m.IdentityHint == nil && m.PublicKey != nil ==> len(out) == 1 + len(m.PublicKey)
+//@ ensures size-ecdhe-psk: err == nil && m.IdentityHint != nil && m.PublicKey != nil ==> len(out) == 2 + len(m.IdentityHint) + 1 + len(m.PublicKey)
+//@ ensures layout-hint-len: err == nil && m.IdentityHint != nil && len(m.IdentityHint) <= 65535 ==> CKE_HINTLEN(out) == len(m.IdentityHint)
+//@ ensures layout-hint: err == nil && m.IdentityHint != nil ==> forall(0, len(m.IdentityHint), func(i int) bool { return out[2+i] == m.IdentityHint[i] })
+//@ ensures layout-key-len-ecdhe: err == nil && m.IdentityHint == nil && m.PublicKey != nil ==> int(out[0]) == len(m.PublicKey)
+//@ ensures layout-key-ecdhe: err == nil && m.IdentityHint == nil && m.PublicKey != nil ==> forall(0, len(m.PublicKey), func(i int) bool { return out[1+i] == m.PublicKey[i] })
+//@ ensures layout-key-len-ecdhe-psk: err == nil && m.IdentityHint != nil && m.PublicKey != nil ==> int(out[2+len(m.IdentityHint)]) == len(m.PublicKey)
+//@ ensures layout-key-ecdhe-psk: err == nil && m.IdentityHint != nil && m.PublicKey != nil ==> forall(0, len(m.PublicKey), func(i int) bool { return out[3+len(m.IdentityHint)+i] == m.PublicKey[i] })
+//@ ensures frame: len(m.IdentityHint) == old(len(m.IdentityHint)) && len(m.PublicKey) == old(len(m.PublicKey)) && m.KeyExchangeAlgorithm == old(m.KeyExchangeAlgorithm)
+//@ ensures frame-hint: forall(0, len(m.IdentityHint), func(i int) bool { return m.IdentityHint[i] == old(m.IdentityHint[i]) })
+//@ ensures frame-key: forall(0, len(m.PublicKey), func(i int) bool { return m.PublicKey[i] == old(m.PublicKey[i]) })
+//@ end
+
+//@ func MessageClientKeyExchange.Unmarshal
+//@ ensures short: len(data) < 2 ==> result != nil
+//@ ensures unset: old(m.KeyExchangeAlgorithm) == 0 ==> result != nil
+//@ ensures psk-truncated: len(data) >= 2 && CKE_PSK(m) && len(data) - 2 < CKE_HINTLEN(data) ==> result != nil
+//@ ensures psk-declared-len: result == nil && CKE_PSK(m) ==> len(m.IdentityHint) == CKE_HINTLEN(data)
+//@ ensures psk-hint: result == nil && CKE_PSK(m) ==> forall(0, len(m.IdentityHint), func(i int) bool { return m.IdentityHint[i] == data[2+i] })
+//@ ensures psk-only-ok: len(data) >= 2 && m.KeyExchangeAlgorithm == 2 && len(data) - 2 >= CKE_HINTLEN(data) ==> result == nil
+//@ ensures ecdhe-truncated: len(data) >= 2 && m.KeyExchangeAlgorithm == 4 && len(data) - 1 < int(data[0]) ==> result != nil
+//@ ensures ecdhe-ok: len(data) >= 2 && m.KeyExchangeAlgorithm == 4 && len(data) - 1 >= int(data[0]) ==> result == nil
+//@ ensures ecdhe-declared-len: result == nil && m.KeyExchangeAlgorithm == 4 ==> len(m.PublicKey) == int(data[0])
+//@ ensures ecdhe-key: result == nil && m.KeyExchangeAlgorithm == 4 ==> len(m.PublicKey) >= int(data[0])
+//@    && forall(0, int(data[0]), func(i int) bool { return m.PublicKey[i] == data[1+i] })
+//@ ensures ecdhe-psk-missing: len(data) >= 2 && m.KeyExchangeAlgorithm == 6 && len(data) - 2 <= CKE_HINTLEN(data) ==> result != nil
+//@ ensures ecdhe-psk-truncated: len(data) >= 2 && m.KeyExchangeAlgorithm == 6 && len(data) - 2 > CKE_HINTLEN(data)
+//@    && len(data) - 3 - CKE_HINTLEN(data) < int(data[2+CKE_HINTLEN(data)]) ==> result != nil
+//@ ensures ecdhe-psk-ok: len(data) >= 2 && m.KeyExchangeAlgorithm == 6 && len(data) - 2 > CKE_HINTLEN(data)
+//@    && len(data) - 3 - CKE_HINTLEN(data) >= int(data[2+CKE_HINTLEN(data)]) ==> result == nil
+//@ ensures ecdhe-psk-declared-len: result == nil && m.KeyExchangeAlgorithm == 6 ==> len(m.PublicKey) == int(data[2+CKE_HINTLEN(data)])
+//@ ensures ecdhe-psk-key: result == nil && m.KeyExchangeAlgorithm == 6 ==> len(m.PublicKey) >= int(data[2+CKE_HINTLEN(data)])
+//@    && forall(0, int(data[2+CKE_HINTLEN(data)]), func(i int) bool { return m.PublicKey[i] == data[3+CKE_HINTLEN(data)+i] })
+//@ ensures frame-alg: m.KeyExchangeAlgorithm == old(m.KeyExchangeAlgorithm)
+//@ ensures frame-no-psk: !CKE_PSK(m) ==> len(m.IdentityHint) == old(len(m.IdentityHint)) && (len(m.IdentityHint) > 0 ==> sameArray(m.IdentityHint, old(m.IdentityHint)))
+//@ ensures frame-no-ecdhe: !CKE_ECDHE(m) ==> len(m.PublicKey) == old(len(m.PublicKey)) && (len(m.PublicKey) > 0 ==> sameArray(m.PublicKey, old(m.PublicKey)))
+//@ ensures input-unchanged: forall(0, len(data), func(i int) bool { return data[i] == old(data[i]) })
+//@ end
+
+// ServerKeyExchange. RFC 4279 2: opaque psk_identity_hint<0..2^16-1>; RFC 8422 5.4:
+// ECCurveType curve_type(1) = named_curve(3); NamedCurve namedcurve(2); opaque point<1..2^8-1>;
+// then (unless anonymous) SignatureAndHashAlgorithm / SignatureScheme (2) and opaque signature<0..2^16-1>.
+// RFC 5489 2 (ECDHE_PSK): the hint comes first, then the EC parameters.
+// "EC part present" on the encoding side is EllipticCurveType != 0 && len(PublicKey) != 0 (shape from the code).
+
+//@ define SKE_EC(m) (m.EllipticCurveType != 0 && len(m.PublicKey) != 0)
+//@ define SKE_ANON(m) (m.SignatureAlgorithm == 0 && m.HashAlgorithm == 0 && len(m.Signature) == 0)
+//@ define SKE_PSS(a) (a == 0x0804 || a == 0x0805 || a == 0x0806 || a == 0x0809 || a == 0x080a || a == 0x080b)
+//@ define BE16(d, o) (int(d[o])<<8 | int(d[(o)+1]))
+//@ define SKE_L_PARAMS(out, off, m) (out[off] == byte(m.EllipticCurveType) && BE16(out, (off)+1) == int(m.NamedCurve) && int(out[(off)+3]) == len(m.PublicKey))
+//@ define SKE_L_KEY(out, off, m) forall(0, len(m.PublicKey), func(i int) bool { return out[(off)+4+i] == m.PublicKey[i] })
+//@ define SKE_L_SCHEME(out, o, m) ((!SKE_PSS(m.SignatureAlgorithm) ==> out[o] == byte(m.HashAlgorithm) && out[(o)+1] == byte(m.SignatureAlgorithm)) && (SKE_PSS(m.SignatureAlgorithm) ==> BE16(out, o) == int(m.SignatureAlgorithm)))
+//@ define SKE_L_SIG(out, o, m) (BE16(out, o) == len(m.Signature) && forall(0, len(m.Signature), func(i int) bool { return out[(o)+2+i] == m.Signature[i] }))
+
+//@ func MessageServerKeyExchange.Marshal
+//@ ensures hint-too-long: old(m.IdentityHint) != nil && len(old(m.IdentityHint)) > 65535 ==> result1 != nil
+//@ ensures key-too-long: SKE_EC(m) && len(old(m.PublicKey)) > 255 ==> result1 != nil
+//@ ensures sig-too-long: SKE_EC(m) && len(old(m.Signature)) > 65535 ==> result1 != nil
+//@ ensures ok-no-ec: !SKE_EC(m) && len(m.IdentityHint) <= 65535 ==> result1 == nil
+//@ ensures ok-anon: SKE_EC(m) && SKE_ANON(m) && len(m.IdentityHint) <= 65535 && len(m.PublicKey) <= 255 ==> result1 == nil
+//@ ensures ok-signed: SKE_EC(m) && m.HashAlgorithm != 0 && m.SignatureAlgorithm != 0 && len(m.Signature) > 0 && len(m.Signature) <= 65535
+//@    && len(m.IdentityHint) <= 65535 && len(m.PublicKey) <= 255 ==> result1 == nil
+//@ ensures size-no-ec: result1 == nil && !SKE_EC(m) && m.IdentityHint == nil ==> len(result0) == 0
+//@ ensures size-psk: result1 == nil && !SKE_EC(m) && m.IdentityHint != nil ==> len(result0) == 2 + len(m.IdentityHint)
+//@ ensures layout-hint-len: result1 == nil && m.IdentityHint != nil && len(m.IdentityHint) <= 65535 ==> BE16(result0, 0) == len(m.IdentityHint)
+//@ ensures layout-hint: result1 == nil && m.IdentityHint != nil ==> forall(0, len(m.IdentityHint), func(i int) bool { return result0[2+i] == m.IdentityHint[i] })
+//@ ensures size-anon: result1 == nil && SKE_EC(m) && SKE_ANON(m) && m.IdentityHint == nil ==> len(result0) == 4 + len(m.PublicKey)
+//@ ensures size-anon-psk: result1 == nil && SKE_EC(m) && SKE_ANON(m) && m.IdentityHint != nil ==> len(result0) == 2 + len(m.IdentityHint) + 4 + len(m.PublicKey)
+//@ ensures size-signed: result1 == nil && SKE_EC(m) && !SKE_ANON(m) && m.IdentityHint == nil ==> len(result0) == 4 + len(m.PublicKey) + 4 + len(m.Signature)
+//@ ensures size-signed-psk: result1 == nil && SKE_EC(m) && !SKE_ANON(m) && m.IdentityHint != nil ==> len(result0) == 2 + len(m.IdentityHint) + 4 + len(m.PublicKey) + 4 + len(m.Signature)
+//@ ensures layout-params: result1 == nil && SKE_EC(m) && m.IdentityHint == nil && len(m.PublicKey) <= 255 ==> SKE_L_PARAMS(result0, 0, m)
+//@ ensures layout-params-psk: result1 == nil && SKE_EC(m) && m.IdentityHint != nil && len(m.PublicKey) <= 255 ==> SKE_L_PARAMS(result0, 2+len(m.IdentityHint), m)
+//@ ensures layout-key: result1 == nil && SKE_EC(m) && m.IdentityHint == nil ==> SKE_L_KEY(result0, 0, m)
+//@ ensures layout-key-psk: result1 == nil && SKE_EC(m) && m.IdentityHint != nil ==> SKE_L_KEY(result0, 2+len(m.IdentityHint), m)
+//@ ensures layout-scheme: result1 == nil && SKE_EC(m) && !SKE_ANON(m) && m.IdentityHint == nil ==> SKE_L_SCHEME(result0, 4+len(m.PublicKey), m)
+//@ ensures layout-scheme-psk: result1 == nil && SKE_EC(m) && !SKE_ANON(m) && m.IdentityHint != nil ==> SKE_L_SCHEME(result0, 6+len(m.IdentityHint)+len(m.PublicKey), m)
+//@ ensures layout-sig: result1 == nil && SKE_EC(m) && !SKE_ANON(m) && m.IdentityHint == nil && len(m.Signature) <= 65535 ==> SKE_L_SIG(result0, 6+len(m.PublicKey), m)
+//@ ensures layout-sig-psk: result1 == nil && SKE_EC(m) && !SKE_ANON(m) && m.IdentityHint != nil && len(m.Signature) <= 65535 ==> SKE_L_SIG(result0, 8+len(m.IdentityHint)+len(m.PublicKey), m)
+//@ ensures frame: len(m.IdentityHint) == old(len(m.IdentityHint)) && len(m.PublicKey) == old(len(m.PublicKey)) && len(m.Signature) == old(len(m.Signature))
+//@    && m.EllipticCurveType == old(m.EllipticCurveType) && m.NamedCurve == old(m.NamedCurve) && m.HashAlgorithm == old(m.HashAlgorithm)
+//@    && m.SignatureAlgorithm == old(m.SignatureAlgorithm) && m.KeyExchangeAlgorithm == old(m.KeyExchangeAlgorithm)
+//@ end
+
+// Decoding. off is where the EC parameters start: 0 for ECDHE (4), 2+hint length for ECDHE_PSK (6).
+//@ define SKE_HINT_OK(d) (len(d) >= 2 && len(d) - 2 >= BE16(d, 0))
+//@ define SKE_PKLEN(d, off) int(d[(off)+3])
+//@ define SKE_SIGOFF(d, off) ((off) + 4 + SKE_PKLEN(d, off))
+//@ define SKE_U_TRUNC(d, off) (len(d) < (off)+4 || len(d) < (off)+4+SKE_PKLEN(d, off) || (len(d) > SKE_SIGOFF(d, off) && (len(d) < SKE_SIGOFF(d, off)+4 || len(d) < SKE_SIGOFF(d, off)+4+BE16(d, SKE_SIGOFF(d, off)+2))))
+//@ define SKE_U_PARAMS(m, d, off) (m.EllipticCurveType == elliptic.CurveType(d[off]) && d[off] == 3 && int(m.NamedCurve) == BE16(d, (off)+1))
+//@ define SKE_U_KEY(m, d, off) (len(m.PublicKey) == SKE_PKLEN(d, off) && forall(0, len(m.PublicKey), func(i int) bool { return m.PublicKey[i] == d[(off)+4+i] }))
+//@ define SKE_U_SIGNED(d, off) (len(d) > SKE_SIGOFF(d, off))
+//@ define SKE_U_SIG(m, d, off) (len(m.Signature) == BE16(d, SKE_SIGOFF(d, off)+2) && forall(0, len(m.Signature), func(i int) bool { return m.Signature[i] == d[SKE_SIGOFF(d, off)+4+i] }))
+//@ define SKE_U_SCHEME(m, d, o) ((!SKE_PSS(BE16(d, o)) ==> int(m.HashAlgorithm) == int(d[o]) && int(m.SignatureAlgorithm) == int(d[(o)+1])) && (SKE_PSS(BE16(d, o)) ==> int(m.SignatureAlgorithm) == BE16(d, o)))
+
+//@ func MessageServerKeyExchange.Unmarshal
+//@ ensures short: len(data) < 2 ==> result != nil
+//@ ensures unset: old(m.KeyExchangeAlgorithm) == 0 ==> result != nil
+//@ ensures psk-truncated: m.KeyExchangeAlgorithm == 2 && !SKE_HINT_OK(data) ==> result != nil
+//@ ensures psk-ok: m.KeyExchangeAlgorithm == 2 && len(data) >= 2 && len(data) - 2 == BE16(data, 0) ==> result == nil
+//@ ensures psk-declared-len: result == nil && m.KeyExchangeAlgorithm == 2 ==> len(m.IdentityHint) == BE16(data, 0)
+//@ ensures psk-hint: result == nil && m.KeyExchangeAlgorithm == 2 ==> forall(0, len(m.IdentityHint), func(i int) bool { return m.IdentityHint[i] == data[2+i] })
+//@ ensures ecdhe-truncated: m.KeyExchangeAlgorithm == 4 && SKE_U_TRUNC(data, 0) ==> result != nil
+//@ ensures ecdhe-params: result == nil && m.KeyExchangeAlgorithm == 4 ==> SKE_U_PARAMS(m, data, 0)
+//@ ensures ecdhe-key: result == nil && m.KeyExchangeAlgorithm == 4 ==> SKE_U_KEY(m, data, 0)
+//@ ensures ecdhe-scheme: result == nil && m.KeyExchangeAlgorithm == 4 && SKE_U_SIGNED(data, 0) ==> SKE_U_SCHEME(m, data, SKE_SIGOFF(data, 0))
+//@ ensures ecdhe-sig: result == nil && m.KeyExchangeAlgorithm == 4 && SKE_U_SIGNED(data, 0) ==> SKE_U_SIG(m, data, 0)
+//@ ensures ecdhe-anon: result == nil && m.KeyExchangeAlgorithm == 4 && !SKE_U_SIGNED(data, 0) ==> m.HashAlgorithm == old(m.HashAlgorithm)
+//@    && m.SignatureAlgorithm == old(m.SignatureAlgorithm) && len(m.Signature) == old(len(m.Signature))
+//@ ensures ecdhe-psk-truncated-hint: m.KeyExchangeAlgorithm == 6 && !SKE_HINT_OK(data) ==> result != nil
+//@ ensures ecdhe-psk-truncated: m.KeyExchangeAlgorithm == 6 && SKE_HINT_OK(data) && SKE_U_TRUNC(data, 2+BE16(data, 0)) ==> result != nil
+//@ ensures ecdhe-psk-declared-len: result == nil && m.KeyExchangeAlgorithm == 6 && SKE_HINT_OK(data) ==> len(m.IdentityHint) == BE16(data, 0)
+//@ ensures ecdhe-psk-hint: result == nil && m.KeyExchangeAlgorithm == 6 && SKE_HINT_OK(data) ==> forall(0, len(m.IdentityHint), func(i int) bool { return m.IdentityHint[i] == data[2+i] })
+//@ ensures ecdhe-psk-params: result == nil && m.KeyExchangeAlgorithm == 6 && SKE_HINT_OK(data) ==> SKE_U_PARAMS(m, data, 2+BE16(data, 0))
+//@ ensures ecdhe-psk-key: result == nil && m.KeyExchangeAlgorithm == 6 && SKE_HINT_OK(data) ==> SKE_U_KEY(m, data, 2+BE16(data, 0))
+//@ ensures ecdhe-psk-scheme: result == nil && m.KeyExchangeAlgorithm == 6 && SKE_HINT_OK(data) && SKE_U_SIGNED(data, 2+BE16(data, 0)) ==> SKE_U_SCHEME(m, data, SKE_SIGOFF(data, 2+BE16(data, 0)))
+//@ ensures ecdhe-psk-sig: result == nil && m.KeyExchangeAlgorithm == 6 && SKE_HINT_OK(data) && SKE_U_SIGNED(data, 2+BE16(data, 0)) ==> SKE_U_SIG(m, data, 2+BE16(data, 0))
+//@ ensures frame-alg: m.KeyExchangeAlgorithm == old(m.KeyExchangeAlgorithm)
+//@ ensures frame-no-psk: m.KeyExchangeAlgorithm & 2 == 0 ==> len(m.IdentityHint) == old(len(m.IdentityHint)) && (len(m.IdentityHint) > 0 ==> sameArray(m.IdentityHint, old(m.IdentityHint)))
+//@ ensures input-unchanged: forall(0, len(data), func(i int) bool { return data[i] == old(data[i]) })
+//@ end
